@@ -513,7 +513,8 @@ where
         }
         visitor.finish_layer(
             layer,
-            dd.len() - old_len,
+            // pruning can remove more nodes than the layer added
+            dd.len().saturating_sub(old_len),
             dd.len() - dd.tree.num_terminals(),
             dd.tree.num_terminals(),
         );
